@@ -676,8 +676,8 @@ pub fn check_case(c: &SwitchCase, ctx: &mut Ctx) {
                         format!("C09/edge/{dname}"),
                         format!(
                             "flipping `{dname}` ({v:?} -> {w:?}) changes more than the tokens it governs: …{}… vs …{}…",
-                            truncate(&ra[lo.min(ra.len())..], 140),
-                            truncate(&rb[lo.min(rb.len())..], 140)
+ra.chars().skip(lo).take(140).collect::<String>(),
+                            rb.chars().skip(lo).take(140).collect::<String>()
                         ),
                         replay(&v),
                         size,
